@@ -1,0 +1,357 @@
+//go:build verif
+// +build verif
+
+package loadbalance
+
+// Machine-checked contracts for the load balancers (comment-only file).
+//
+// Every balancer: the index used to pick a server is a valid index into the
+// configured server list (requires at least one server: the property speaks
+// of "the currently configured servers"), for every state of the shared
+// counters. Policies are stated per call. Shared state is either touched
+// only through sync/atomic (round robin) or declared `guarded` by its lock:
+// every access then carries the obligation that the lock is held.
+
+//@ guarded LeastActiveLoadBalance.actives by rwlock
+//@ guarded WeightedLeastActiveLoadBalance.actives by rwlock
+//@ guarded WeightedLeastActiveLoadBalance.effectiveWeights by rwlock
+//@ guarded WeightedRandomLoadBalance.effectiveWeights by rwlock
+//@ guarded NginxRoundRobinLoadBalance.effectiveWeights by lock
+//@ guarded NginxRoundRobinLoadBalance.currentWeights by lock
+//@ guarded WeightedRoundRobinLoadBalance.index by lock
+//@ guarded WeightedRoundRobinLoadBalance.currentWeight by lock
+
+// ---- int64Slice helpers (Aggregate is inlined; its loop invariant is given
+// ---- per caller as `loop Aggregate.1`) ---------------------------------
+
+//@ func (int64Slice).Min
+//@   prop C18
+//@   nopanic
+//@   modifies nothing
+//@   loop Aggregate.1 invariant 1 <= i && i <= n && n == len(nums) &&
+//@       forall(j, 0, i, current <= nums[j]) && exists(j, 0, i, current == nums[j])
+//@   ensures [empty_is_zero] len(nums) == 0 ==> result == 0
+//@   ensures [lower_bound] forall(j, 0, len(nums), result <= nums[j])
+//@   ensures [attained] len(nums) > 0 ==> exists(j, 0, len(nums), result == nums[j])
+
+//@ func (int64Slice).Max
+//@   prop C18
+//@   nopanic
+//@   modifies nothing
+//@   loop Aggregate.1 invariant 1 <= i && i <= n && n == len(nums) &&
+//@       forall(j, 0, i, current >= nums[j]) && exists(j, 0, i, current == nums[j])
+//@   ensures [empty_is_zero] len(nums) == 0 ==> result == 0
+//@   ensures [upper_bound] forall(j, 0, len(nums), result >= nums[j])
+//@   ensures [attained] len(nums) > 0 ==> exists(j, 0, len(nums), result == nums[j])
+
+//@ func (int64Slice).Sum
+//@   prop C18
+//@   nopanic
+//@   modifies nothing
+//@   loop Aggregate.1 invariant 1 <= i && i <= n && n == len(nums) && current == sumpre(elems(nums), off(nums), i)
+//@   ensures [is_sum] result == sumpre(elems(nums), off(nums), len(nums))
+
+// ---- round robin ------------------------------------------------------
+
+//@ func (*RoundRobinLoadBalance).getIndex
+//@   prop C18
+//@   nopanic
+//@   requires lb != nil && lb.index >= -1
+//@   modifies lb.index
+//@   ensures [in_range] 0 <= result && (n >= 1 ==> result < n)
+//@   ensures [successor] n > 1 && old(lb.index) + 1 < n ==> result == old(lb.index) + 1 && lb.index == result
+//@   ensures [wraps_to_zero] n > 1 && old(lb.index) + 1 >= n ==> result == 0 && lb.index == 0
+//@   ensures [single_server] n <= 1 ==> result == 0
+//@   ensures [counter_stays_valid] lb.index >= -1
+
+//@ func (*RoundRobinLoadBalance).Handler
+//@   prop C18
+//@   havoc
+//@   modifies @NEXT_IO
+//@   requires lb != nil && lb.index >= -1 && ghost.ccof[ival(ctx)] != nil && len(ghost.ccof[ival(ctx)].client.URLs) >= 1
+//@   let cc = ghost.ccof[ival(ctx)]
+//@   let urls = ghost.ccof[ival(ctx)].client.URLs
+//@   oncall next [url_is_a_configured_server] exists(k, 0, len(urls), cc.URL == urls[k])
+//@   oncall next [round_robin_successor] len(urls) > 1 && old(lb.index) + 1 < len(urls) ==> cc.URL == urls[old(lb.index) + 1]
+//@   ensures [forwards_once] ghost.fwd == old(ghost.fwd) + 1
+//@   ensures [result_passthrough] same(response, ghost.ret_response) && same(err, ghost.ret_err)
+
+//@ func (*RandomLoadBalance).Handler
+//@   prop C18
+//@   havoc
+//@   modifies @NEXT_IO
+//@   requires ghost.ccof[ival(ctx)] != nil && len(ghost.ccof[ival(ctx)].client.URLs) >= 1
+//@   let cc = ghost.ccof[ival(ctx)]
+//@   let urls = ghost.ccof[ival(ctx)].client.URLs
+//@   oncall next [url_is_a_configured_server] exists(k, 0, len(urls), cc.URL == urls[k])
+//@   ensures [forwards_once] ghost.fwd == old(ghost.fwd) + 1
+//@   ensures [result_passthrough] same(response, ghost.ret_response) && same(err, ghost.ret_err)
+
+// ---- weighted round robin ---------------------------------------------
+//
+// wf: as many weights as servers, all weights in [1, maxWeight], maxWeight
+// attained, gcdWeight >= 1, -1 <= index < n, 0 <= currentWeight <= maxWeight.
+// Each step keeps wf and returns an index whose weight is at least the
+// current weight level. (Exact per-cycle proportions are a statement about a
+// whole cycle of calls: not decided here, see DESIGN.md.)
+
+//@ func (*WeightedRoundRobinLoadBalance).getIndex
+//@   prop C18
+//@   nopanic
+//@   requires lb != nil && len(lb.URLs) >= 1 && len(lb.Weights) == len(lb.URLs)
+//@   requires -1 <= lb.index && lb.index < len(lb.URLs)
+//@   requires lb.gcdWeight >= 1 && lb.maxWeight >= 1 && 0 <= lb.currentWeight && lb.currentWeight <= lb.maxWeight
+//@   requires lb.index >= 0 ==> lb.currentWeight >= 1
+//@   requires forall(j, 0, len(lb.Weights), lb.Weights[j] >= 1 && lb.Weights[j] <= lb.maxWeight)
+//@   modifies lb.index, lb.currentWeight, ghost.held[addr(lb.lock)]
+//@   loop 1 invariant ghost.held[addr(lb.lock)] == 1 && -1 <= lb.index && lb.index < n && n == len(lb.URLs) &&
+//@       0 <= lb.currentWeight && lb.currentWeight <= lb.maxWeight && (lb.index >= 0 ==> lb.currentWeight >= 1)
+//@   ensures [valid_index] 0 <= result && result < len(lb.URLs) && lb.index == result
+//@   ensures [weight_reaches_level] lb.Weights[result] >= lb.currentWeight
+//@   ensures [level_in_range] 1 <= lb.currentWeight && lb.currentWeight <= lb.maxWeight
+//@   ensures [lock_released] ghost.held[addr(lb.lock)] == 0
+
+//@ func (*WeightedRoundRobinLoadBalance).Handler
+//@   prop C18
+//@   havoc
+//@   modifies @NEXT_IO, ghost.held[addr(lb.lock)]
+//@   requires lb != nil && len(lb.URLs) >= 1 && len(lb.Weights) == len(lb.URLs)
+//@   requires -1 <= lb.index && lb.index < len(lb.URLs)
+//@   requires lb.gcdWeight >= 1 && lb.maxWeight >= 1 && 0 <= lb.currentWeight && lb.currentWeight <= lb.maxWeight
+//@   requires lb.index >= 0 ==> lb.currentWeight >= 1
+//@   requires forall(j, 0, len(lb.Weights), lb.Weights[j] >= 1 && lb.Weights[j] <= lb.maxWeight)
+//@   requires ghost.ccof[ival(ctx)] != nil
+//@   let cc = ghost.ccof[ival(ctx)]
+//@   oncall next [url_is_a_configured_server_of_enough_weight]
+//@       exists(k, 0, len(lb.URLs), cc.URL == lb.URLs[k] && lb.Weights[k] >= lb.currentWeight)
+//@   ensures [forwards_once] ghost.fwd == old(ghost.fwd) + 1
+//@   ensures [result_passthrough] same(response, ghost.ret_response) && same(err, ghost.ret_err)
+
+// ---- smooth (nginx) weighted round robin --------------------------------
+
+//@ func (*NginxRoundRobinLoadBalance).getIndex
+//@   prop C18
+//@   nopanic
+//@   requires lb != nil && len(lb.URLs) >= 1
+//@   requires len(lb.effectiveWeights) == len(lb.URLs) && len(lb.currentWeights) == len(lb.URLs)
+//@   requires arr(lb.effectiveWeights) != arr(lb.currentWeights)
+//@   modifies lb.currentWeights[*], ghost.held[addr(lb.lock)]
+//@   let total = sumpre(elems(lb.effectiveWeights), off(lb.effectiveWeights), len(lb.effectiveWeights))
+//@   loop 1 invariant [bounds] ghost.held[addr(lb.lock)] == 1 && 0 <= i && i <= n && n == len(lb.URLs) && 0 <= index && index < n &&
+//@       (i == 0 ==> index == 0 && currentWeight == -9223372036854775808) && (i > 0 ==> index < i)
+//@   loop 1 invariant [updated_prefix] forall(j, 0, i, lb.currentWeights[j] == old(lb.currentWeights[j]) + lb.effectiveWeights[j])
+//@   loop 1 invariant [untouched_suffix] forall(j, i, n, lb.currentWeights[j] == old(lb.currentWeights[j]))
+//@   loop 1 invariant [running_max_value] i > 0 ==> currentWeight == old(lb.currentWeights[index]) + lb.effectiveWeights[index]
+//@   loop 1 invariant [running_max_bound] forall(j, 0, i, old(lb.currentWeights[j]) + lb.effectiveWeights[j] <= currentWeight)
+//@   ensures [valid_index] 0 <= result && result < len(lb.URLs)
+//@   ensures [picks_largest_current_weight] total > 0 ==>
+//@       forall(j, 0, len(lb.URLs), old(lb.currentWeights[j]) + lb.effectiveWeights[j] <= old(lb.currentWeights[result]) + lb.effectiveWeights[result])
+//@   ensures [winner_pays_total] total > 0 ==>
+//@       lb.currentWeights[result] == old(lb.currentWeights[result]) + lb.effectiveWeights[result] - total
+//@   ensures [others_gain_their_weight] total > 0 ==>
+//@       forall(j, 0, len(lb.URLs), j != result ==> lb.currentWeights[j] == old(lb.currentWeights[j]) + lb.effectiveWeights[j])
+//@   ensures [lock_released] ghost.held[addr(lb.lock)] == 0
+
+// Failure-aware bookkeeping shared by the three weighted policies, per call,
+// for the server `index` the call went to (ew = effectiveWeights, W = Weights):
+//   success          ew[index]' = min(W[index], ew[index] + 1)   (restores the share)
+//   error or panic   ew[index]' = max(0, ew[index] - 1)           (reduces the share)
+//   every other server's effective weight is unchanged.
+// A panic of the downstream handler is turned into an error.
+
+//@ func (*NginxRoundRobinLoadBalance).Handler
+//@   prop C18
+//@   havoc
+//@   modifies @NEXT_IO, ghost.held[addr(lb.lock)]
+//@   requires lb != nil && len(lb.URLs) >= 1 && len(lb.Weights) == len(lb.URLs)
+//@   requires len(lb.effectiveWeights) == len(lb.URLs) && len(lb.currentWeights) == len(lb.URLs)
+//@   requires arr(lb.effectiveWeights) != arr(lb.currentWeights) && arr(lb.effectiveWeights) != arr(lb.Weights)
+//@   requires ghost.ccof[ival(ctx)] != nil
+//@   stable lb.effectiveWeights, lb.effectiveWeights[*], lb.WeightedLoadBalance.Weights, lb.WeightedLoadBalance.Weights[*], lb.WeightedLoadBalance.URLs, lb.WeightedLoadBalance.URLs[*]
+//@   let cc = ghost.ccof[ival(ctx)]
+//@   oncall next [url_is_the_chosen_configured_server] 0 <= index && index < len(lb.URLs) && cc.URL == lb.URLs[index]
+//@   ensures [forwards_once] ghost.fwd == old(ghost.fwd) + 1
+//@   ensures [panic_becomes_error] ghost.npanic > old(ghost.npanic) ==> err != nil
+//@   ensures [success_restores_share] err == nil ==> lb.effectiveWeights[index] ==
+//@       ite(old(lb.effectiveWeights[index]) < lb.Weights[index], old(lb.effectiveWeights[index]) + 1, old(lb.effectiveWeights[index]))
+//@   ensures [failure_reduces_share] err != nil ==> lb.effectiveWeights[index] ==
+//@       ite(old(lb.effectiveWeights[index]) > 0, old(lb.effectiveWeights[index]) - 1, old(lb.effectiveWeights[index]))
+//@   ensures [other_servers_unchanged] forall(j, 0, len(lb.URLs), j != index ==> lb.effectiveWeights[j] == old(lb.effectiveWeights[j]))
+//@   ensures [lock_released] ghost.held[addr(lb.lock)] == 0
+
+// ---- weighted random ------------------------------------------------------
+
+//@ func (*WeightedRandomLoadBalance).getIndex
+//@   prop C18
+//@   nopanic
+//@   requires lb != nil && len(lb.URLs) >= 1 && len(lb.effectiveWeights) == len(lb.URLs)
+//@   modifies ghost.held[addr(lb.rwlock)]
+//@   loop 1 invariant 0 <= i && i <= n && n == len(lb.URLs) && ghost.held[addr(lb.rwlock)] == 2
+//@   ensures [valid_index] 0 <= result && result < len(lb.URLs)
+//@   ensures [lock_released] ghost.held[addr(lb.rwlock)] == 0
+
+//@ func (*WeightedRandomLoadBalance).Handler
+//@   prop C18
+//@   havoc
+//@   modifies @NEXT_IO, ghost.held[addr(lb.rwlock)]
+//@   requires lb != nil && len(lb.URLs) >= 1 && len(lb.Weights) == len(lb.URLs) && len(lb.effectiveWeights) == len(lb.URLs)
+//@   requires arr(lb.effectiveWeights) != arr(lb.Weights)
+//@   requires ghost.ccof[ival(ctx)] != nil
+//@   stable lb.effectiveWeights, lb.effectiveWeights[*], lb.WeightedLoadBalance.Weights, lb.WeightedLoadBalance.Weights[*], lb.WeightedLoadBalance.URLs, lb.WeightedLoadBalance.URLs[*]
+//@   let cc = ghost.ccof[ival(ctx)]
+//@   oncall next [url_is_the_chosen_configured_server] 0 <= index && index < len(lb.URLs) && cc.URL == lb.URLs[index]
+//@   ensures [forwards_once] ghost.fwd == old(ghost.fwd) + 1
+//@   ensures [panic_becomes_error] ghost.npanic > old(ghost.npanic) ==> err != nil
+//@   ensures [success_restores_share] err == nil ==> lb.effectiveWeights[index] ==
+//@       ite(old(lb.effectiveWeights[index]) < lb.Weights[index], old(lb.effectiveWeights[index]) + 1, old(lb.effectiveWeights[index]))
+//@   ensures [failure_reduces_share] err != nil ==> lb.effectiveWeights[index] ==
+//@       ite(old(lb.effectiveWeights[index]) > 0, old(lb.effectiveWeights[index]) - 1, old(lb.effectiveWeights[index]))
+//@   ensures [other_servers_unchanged] forall(j, 0, len(lb.URLs), j != index ==> lb.effectiveWeights[j] == old(lb.effectiveWeights[j]))
+//@   ensures [lock_released] ghost.held[addr(lb.rwlock)] == 0
+
+// ---- least active -------------------------------------------------------
+//
+// The chosen server has the fewest requests in flight among the counts read
+// under the lock; its count is one higher during the downstream call and is
+// back to its entry value on every exit, including error and panic
+// (sequential view of the counts).
+
+//@ func (*WeightedLeastActiveLoadBalance).getIndex
+//@   prop C18
+//@   nopanic
+//@   requires lb != nil && len(lb.URLs) >= 1 && len(lb.actives) == len(lb.URLs) && len(lb.effectiveWeights) == len(lb.URLs)
+//@   modifies ghost.held[addr(lb.rwlock)]
+//@   loop 1 invariant [bounds] 0 <= i && i <= n && n == len(lb.URLs) && ghost.held[addr(lb.rwlock)] == 2 &&
+//@       len(leastActiveIndexes) <= i && cap(leastActiveIndexes) >= n && isnew(leastActiveIndexes)
+//@   loop 1 invariant [collected_are_minimal] forall(k, 0, len(leastActiveIndexes),
+//@       0 <= leastActiveIndexes[k] && leastActiveIndexes[k] < n && lb.actives[leastActiveIndexes[k]] == leastActive)
+//@   loop 1 invariant [a_minimal_one_is_collected] exists(j, 0, i, lb.actives[j] == leastActive) ==> len(leastActiveIndexes) >= 1
+//@   loop 2 invariant 0 <= i && i <= count && count == len(leastActiveIndexes) && ghost.held[addr(lb.rwlock)] == 2
+//@   ensures [valid_index] 0 <= result && result < len(lb.URLs)
+//@   ensures [fewest_in_flight] forall(j, 0, len(lb.URLs), lb.actives[result] <= lb.actives[j])
+//@   ensures [lock_released] ghost.held[addr(lb.rwlock)] == 0
+
+//@ func (*WeightedLeastActiveLoadBalance).Handler
+//@   prop C18
+//@   havoc
+//@   modifies @NEXT_IO, ghost.held[addr(lb.rwlock)]
+//@   requires lb != nil && len(lb.URLs) >= 1 && len(lb.Weights) == len(lb.URLs)
+//@   requires len(lb.actives) == len(lb.URLs) && len(lb.effectiveWeights) == len(lb.URLs)
+//@   requires arr(lb.effectiveWeights) != arr(lb.Weights) && arr(lb.effectiveWeights) != arr(lb.actives) && arr(lb.actives) != arr(lb.Weights)
+//@   requires ghost.ccof[ival(ctx)] != nil
+//@   stable lb.effectiveWeights, lb.effectiveWeights[*], lb.actives, lb.actives[*], lb.WeightedLoadBalance.Weights, lb.WeightedLoadBalance.Weights[*], lb.WeightedLoadBalance.URLs, lb.WeightedLoadBalance.URLs[*]
+//@   let cc = ghost.ccof[ival(ctx)]
+//@   oncall next [url_is_the_chosen_configured_server] 0 <= index && index < len(lb.URLs) && cc.URL == lb.URLs[index]
+//@   oncall next [chosen_had_fewest_in_flight] forall(j, 0, len(lb.URLs), old(lb.actives[index]) <= old(lb.actives[j]))
+//@   oncall next [counted_in_flight_during_call] lb.actives[index] == old(lb.actives[index]) + 1
+//@   ensures [forwards_once] ghost.fwd == old(ghost.fwd) + 1
+//@   ensures [panic_becomes_error] ghost.npanic > old(ghost.npanic) ==> err != nil
+//@   ensures [in_flight_counts_restored] forall(j, 0, len(lb.URLs), lb.actives[j] == old(lb.actives[j]))
+//@   ensures [success_restores_share] err == nil ==> lb.effectiveWeights[index] ==
+//@       ite(old(lb.effectiveWeights[index]) < lb.Weights[index], old(lb.effectiveWeights[index]) + 1, old(lb.effectiveWeights[index]))
+//@   ensures [failure_reduces_share] err != nil ==> lb.effectiveWeights[index] ==
+//@       ite(old(lb.effectiveWeights[index]) > 0, old(lb.effectiveWeights[index]) - 1, old(lb.effectiveWeights[index]))
+//@   ensures [other_servers_unchanged] forall(j, 0, len(lb.URLs), j != index ==> lb.effectiveWeights[j] == old(lb.effectiveWeights[j]))
+//@   ensures [lock_released] ghost.held[addr(lb.rwlock)] == 0
+
+//@ func (*LeastActiveLoadBalance).Handler
+//@   prop C18
+//@   havoc
+//@   modifies @NEXT_IO, ghost.held[addr(lb.rwlock)]
+//@   requires lb != nil && ghost.ccof[ival(ctx)] != nil && len(ghost.ccof[ival(ctx)].client.URLs) >= 1
+//@   requires len(lb.actives) == len(ghost.ccof[ival(ctx)].client.URLs)
+//@   stable lb.actives, lb.actives[*], ghost.ccof[ival(ctx)].client, ghost.ccof[ival(ctx)].client.URLs, ghost.ccof[ival(ctx)].client.URLs[*]
+//@   let cc = ghost.ccof[ival(ctx)]
+//@   let urls = ghost.ccof[ival(ctx)].client.URLs
+//@   loop 1 invariant [bounds] 0 <= i && i <= n && n == len(urls) && ghost.held[addr(lb.rwlock)] == 2 && len(lb.actives) == n &&
+//@       len(leastActiveIndexes) <= i && cap(leastActiveIndexes) >= n && isnew(leastActiveIndexes)
+//@   loop 1 invariant [collected_are_minimal] forall(k, 0, len(leastActiveIndexes),
+//@       0 <= leastActiveIndexes[k] && leastActiveIndexes[k] < n && lb.actives[leastActiveIndexes[k]] == leastActive)
+//@   loop 1 invariant [a_minimal_one_is_collected] exists(j, 0, i, lb.actives[j] == leastActive) ==> len(leastActiveIndexes) >= 1
+//@   oncall next [url_is_the_chosen_configured_server] 0 <= index && index < len(urls) && cc.URL == urls[index]
+//@   oncall next [chosen_had_fewest_in_flight] forall(j, 0, len(urls), old(lb.actives[index]) <= old(lb.actives[j]))
+//@   oncall next [counted_in_flight_during_call] lb.actives[index] == old(lb.actives[index]) + 1
+//@   ensures [forwards_once] ghost.fwd == old(ghost.fwd) + 1
+//@   ensures [in_flight_counts_restored] forall(j, 0, len(urls), lb.actives[j] == old(lb.actives[j]))
+//@   ensures_panic [in_flight_counts_restored_on_panic] ghost.fwd == old(ghost.fwd) + 1 ==>
+//@       forall(j, 0, len(urls), lb.actives[j] == old(lb.actives[j]))
+//@   ensures [lock_released] ghost.held[addr(lb.rwlock)] == 0
+
+// ---- gcd and constructors ------------------------------------------------
+
+//@ func gcd
+//@   prop C18
+//@   nopanic
+//@   modifies nothing
+//@   requires x >= 0 && y >= 0
+//@   loop 1 invariant [nonneg] x >= 0 && y >= 0
+//@   loop 1 invariant [same_gcd] gcdspec(x, y) == gcd2(old(x), old(y))
+//@   ensures [is_euclid_gcd] result == gcd2(x, y)
+//@   ensures [nonneg] result >= 0
+
+//@ func (int64Slice).GCD
+//@   prop C18
+//@   nopanic
+//@   modifies nothing
+//@   requires forall(j, 0, len(nums), nums[j] >= 0)
+//@   loop Aggregate.1 invariant [bounds] 1 <= i && i <= n && n == len(nums) && current >= 0
+//@   loop Aggregate.1 invariant [fold] current == gcdfold(elems(nums), off(nums), i)
+//@   ensures [empty_is_zero] len(nums) == 0 ==> result == 0
+//@   ensures [gcd_of_all_elements] len(nums) > 0 ==> result == gcdfold(elems(nums), off(nums), len(nums))
+
+// MakeWeightedLoadBalance: as many URLs as weights as configured entries;
+// every weight positive (a non-positive weight panics by design).
+//
+//@ func MakeWeightedLoadBalance
+//@   prop C18
+//@   modifies nothing
+//@   flag constructor
+//@   loop 1 invariant 0 <= i && i <= n && i == rangeiter() && n == len(uris) && len(lb.URLs) == n && len(lb.Weights) == n &&
+//@       isnew(lb.URLs) && isnew(lb.Weights) && forall(j, 0, i, lb.Weights[j] >= 1)
+//@   ensures [one_url_and_weight_per_entry] len(result.URLs) == len(uris) && len(result.Weights) == len(uris)
+//@   ensures [weights_positive] forall(j, 0, len(result.Weights), result.Weights[j] >= 1)
+//@   ensures [fresh_slices] isnew(result.URLs) && isnew(result.Weights) && arr(result.URLs) != arr(result.Weights)
+
+//@ func NewRoundRobinLoadBalance
+//@   prop C18
+//@   nopanic
+//@   modifies nothing
+//@   flag constructor
+//@   ensures [starts_before_first_server] result != nil && result.index == -1
+
+//@ func NewWeightedRoundRobinLoadBalance
+//@   prop C18
+//@   modifies nothing
+//@   flag constructor
+//@   requires len(uris) >= 1
+//@   ensures [wf] result != nil && len(result.URLs) == len(uris) && len(result.Weights) == len(uris) &&
+//@       result.index == -1 && result.currentWeight == 0
+//@   ensures [weights_positive_and_bounded] forall(j, 0, len(result.Weights), result.Weights[j] >= 1 && result.Weights[j] <= result.maxWeight)
+//@   ensures [max_weight_attained] exists(j, 0, len(result.Weights), result.Weights[j] == result.maxWeight)
+//@   ensures [step_is_gcd_of_all_weights] result.gcdWeight == gcdfold(elems(result.Weights), off(result.Weights), len(result.Weights))
+
+//@ func NewNginxRoundRobinLoadBalance
+//@   prop C18
+//@   modifies nothing
+//@   flag constructor
+//@   ensures [wf] result != nil && len(result.URLs) == len(uris) && len(result.Weights) == len(uris) &&
+//@       len(result.effectiveWeights) == len(uris) && len(result.currentWeights) == len(uris)
+//@   ensures [separate_arrays] arr(result.effectiveWeights) != arr(result.currentWeights) && arr(result.effectiveWeights) != arr(result.Weights)
+//@   ensures [starts_at_full_share] forall(j, 0, len(uris), result.effectiveWeights[j] == result.Weights[j] && result.currentWeights[j] == 0)
+
+//@ func NewWeightedRandomLoadBalance
+//@   prop C18
+//@   modifies nothing
+//@   flag constructor
+//@   ensures [wf] result != nil && len(result.URLs) == len(uris) && len(result.Weights) == len(uris) && len(result.effectiveWeights) == len(uris)
+//@   ensures [separate_arrays] arr(result.effectiveWeights) != arr(result.Weights)
+//@   ensures [starts_at_full_share] forall(j, 0, len(uris), result.effectiveWeights[j] == result.Weights[j])
+
+//@ func NewWeightedLeastActiveLoadBalance
+//@   prop C18
+//@   modifies nothing
+//@   flag constructor
+//@   ensures [wf] result != nil && len(result.URLs) == len(uris) && len(result.Weights) == len(uris) &&
+//@       len(result.effectiveWeights) == len(uris) && len(result.actives) == len(uris)
+//@   ensures [separate_arrays] arr(result.effectiveWeights) != arr(result.Weights) && arr(result.effectiveWeights) != arr(result.actives) && arr(result.actives) != arr(result.Weights)
+//@   ensures [starts_idle_at_full_share] forall(j, 0, len(uris), result.effectiveWeights[j] == result.Weights[j] && result.actives[j] == 0)
